@@ -115,6 +115,9 @@ func MustCompile(p Program) (*compiled, error) {
 	if c, ok := compCache[k]; ok {
 		return c, c.err
 	}
+	if len(compCache) > 4000 {
+		compCache = map[string]*compiled{} // generated programs: bound the memory of a long-running worker
+	}
 	c := &compiled{}
 	c.an = Analyze(p, NewProvider(p.Modules))
 	switch {
